@@ -1,5 +1,20 @@
 # Per-property configuration of bin/check: Lean modules holding the property theorems, level, notes.
 PROPS = {
+    "C02": {
+        "lean": ["Knut.Properties.C02"],
+        "level": "proof",
+        "claim": "Spec.ledgerEntries (Spec/Ledger.lean) defines the report independently of the pipeline: window bookings mapped/filtered/aligned plus, with closing, the transfer of "
+                 "each income/expense/equity total booked in [previous closing day, s) to Equity:Equity at every shown period start. Proved for all journals and flags: C02_noclose (without "
+                 "closing the pipeline model's report inserts ARE the ledger entries, same list), C02_unmapped_untouched, C02_hidden_no_entry, C02_hidden_only_in_delta, and "
+                 "C02_closing_partial (the closing pair books -T / +T). PARTIAL: the induction that the closing accumulators equal the direct sums over [previous closing day, s) is not "
+                 "mechanised; that clause is decided on every run by the monitor report_equals_ledger, which renders Spec.ledgerEntries and compares it byte for byte with the REAL output of "
+                 "`knut balance` (text and CSV), in addition to the byte-exact model-vs-code comparison over the full flag space (filters, -m incl. level 0 and suffix, remap, last, diff, close).",
+        "note": "Trusted: Lean kernel; axioms propext, Classical.choice, Quot.sound; regexps restricted to the family the driver implements; rendering (BalanceReport.table, Table) is shared by "
+                "model and specification (its numeric/width properties are C17's subject); cobra flag parsing.",
+        "rule": "lifecycle-generated journals (incl. a tenth with one lifecycle mutation, so rejected journals are compared too) x flag vectors over --from/--to/--last/interval/--diff/"
+                "--close/--account/--commodity/-m level[:suffix][,regex] (level 0 included)/--remap/-a/--csv. class = (outcome, flag signature, size bucket).",
+        "assumptions": ["unvalued reports only (valued ones: C01/C03)"],
+    },
     "C01": {
         "lean": ["Knut.Properties.C01"],
         "level": "proof",
